@@ -69,6 +69,20 @@ ASSUMPTIONS = [
     "complete block is right and that the refusal is a TypeError",
 ]
 
+MANIFEST = {
+    "text": "Lean 4 theorems about an executable, code-shaped model of blocks / zero_pad (both loops, idx bookkeeping, padded "
+            "tail) for all lengths / sizes / hops / pad values / item types, and about the generator's histories: every "
+            "prefix of the input (sources that fail or end anywhere), the number of items pulled when each block is handed "
+            "out, a caller that edits the yielded deque in place, live sources that follow the caller; tied to /repo by a "
+            "differential run (impl vs model vs spec) on every check",
+    "note": "deque(maxlen), the generator protocol (a source exception passes through the frame unchanged) and Stream.blocks = "
+            "blocks(iter(s)) are modelled, not verified; caller edits are modelled for length-preserving operations only; an "
+            "int-valued float / Fraction hop is outside the quantifier (only 'right blocks or TypeError' is demanded)",
+    "technique": "Lean 4 machine-checked proof over an executable model + differential correspondence with observing / failing "
+                 "sources, caller-edit and live-source histories, Stream subclasses overriding __iter__, interleaved generators "
+                 "and call histories run in pristine forked processes (state-between-calls is reported with the explicit history)",
+}
+
 PAD_POOL = [None, 0, "pad", -1, {"f": "0.0"}, {"o": -1}]
 EXC_POOL = ["DeviceError", "ValueError", "KeyError", "ZeroDivisionError"]
 
@@ -250,6 +264,10 @@ def generate(rng, tier, scale=1):
                               "exc": "DeviceError"})
         cases.append({"entry": "zero_pad", "left": 0, "right": 0, "zero": {"f": "0.0"}, "xs": [1, 2, 3], "defaults": "all"})
         cases.append({"entry": "zero_pad", "left": 2, "right": 3, "zero": {"f": "0.0"}, "xs": [1, "a"], "defaults": "zero"})
+        # heterogeneous items with sizes / hops in the thousands
+        for size, hop, n in [(1025, 1000, 3100), (2000, 3, 2010), (3, 2049, 4200)]:
+            cases.append({"entry": "blocks", "size": size, "hop": hop, "pad": rng.choice(PAD_POOL),
+                          "xs": _items(rng, n, rng.choice(["hetero", "ident"])), "route": rng.choice(["func", "stream"])})
         for l, r, n in [(0, 0, 0), (5000, 0, 3), (0, 5000, 3), (4096, 4097, 1000)]:
             cases.append({"entry": "zero_pad", "left": l, "right": r, "zero": 0, "n": n,
                           "ending": rng.choice(["stop", "fail"]), "observe": True, "ptype": "int"})
@@ -1491,6 +1509,8 @@ def classify(c, io, drv):
             return "mut:edits-not-visible"
         return e + ":content"
     if e == "conc":
+        if len(c["subs"]) == 1 and "subs" in io and "subs" in drv:
+            return classify(c["subs"][0], io["subs"][0], drv["subs"][0])    # one generator: its own signature
         errs = sorted({o["err"] for o in io.get("subs", []) if "err" in o})
         if "err" in io or errs:
             return "conc:" + io.get("err", ",".join(errs))
